@@ -11,6 +11,7 @@ def main():
     chk.unit(FILE, 'mj_ray', ray.MJ_RAY, 'math', 'fp')
     chk.unit(FILE, 'ray_quad', ray.QUAD, 'math', 'real', check_arith=False)
     chk.unit(FILE, 'ray_sphere', ray.QUAD, 'math', 'real', check_arith=False)
+    chk.unit(FILE, 'ray_sphere', ray.SPHERE_FULL, 'math', 'real', prefix='[nearest]', check_arith=False)
     chk.unit(FILE, 'ray_eliminate', ray.ELIMC, 'math', 'fp')
     chk.unit(FILE, 'ray_plane', ray.PLANE, 'math', 'real', check_arith=False)
     # capsule: ray_quad against the stronger contract its callers need (both roots stored, every real root is one of them), then
@@ -23,5 +24,5 @@ def main():
     chk.unit(FILE, 'mju_rayGeom', ray.RAYGEOM_FULL, 'math', 'real', check_arith=False)      # the dispatch on the geom type
     chk.assumptions |= {'per-geom ray routines are pure functions of the geom index (ghost function); mj_ray is proved for normal == NULL',
                         'ray_quad / ray_sphere / ray_plane / ray_capsule / ray_ellipsoid / ray_cylinder / ray_box over the reals (sqrt is the exact non-negative root), the shape routines for normal == NULL (and all == NULL for the box); the shape routines use ray_map through its contract with the frame components as uninterpreted functions (they hold for every interpretation); ray_map itself is verified against the instantiated contract'}
-    chk.out_of_reach += ['plane: proved for normal == NULL', 'capsule: that the reported hit is the NEAREST surface point and that -1 means no hit (attempted: 73 of 123 path obligations time out in nonlinear real arithmetic); proved: the reported point lies on the surface', 'ellipsoid / cylinder / box: nearest and no-hit (proved: the reported point lies on the surface); mesh / hfield / SDF ray routines', 'mj_multiRay (spherical-angle pruning), mju_rayTree, flex and skin rays']
+    chk.out_of_reach += ['plane: proved for normal == NULL', 'capsule: that the reported hit is the NEAREST surface point and that -1 means no hit (attempted: 73 of 123 path obligations time out in nonlinear real arithmetic); proved: the reported point lies on the surface', 'cylinder: nearest and no-hit; box: no-hit (proved: reported point on the surface; box also nearest among non-parallel faces; sphere and ellipsoid fully: nearest and no-hit); mesh / hfield / SDF ray routines', 'mj_multiRay (spherical-angle pruning), mju_rayTree, flex and skin rays']
     return chk.finish()
